@@ -12,6 +12,13 @@ use crate::{
 use essential_types::{solution::Solution, ContentAddress, PredicateAddress, Word};
 use essential_vm::asm::{self, short::*, Op};
 
+/// Set under Miri: short programs, small breadths.
+pub static TINY: std::sync::atomic::AtomicBool = std::sync::atomic::AtomicBool::new(false);
+
+fn tiny() -> bool {
+    TINY.load(std::sync::atomic::Ordering::Relaxed)
+}
+
 pub const ALPHA: &[Word] = &[
     i64::MIN,
     i64::MIN + 1,
@@ -842,6 +849,7 @@ impl<'a> Gen<'a> {
     fn compute(&mut self) {
         let n = *self.r.pick(&[-1i64, 0, 1, 1, 2, 2, 3, 3, 4, 5, 8, 16, 33, 64]);
         let n = if self.r.chance(0.02) { *self.r.pick(&[200, 1000, 3000]) } else { n };
+        let n = if tiny() { n.clamp(-1, 3) } else { n };
         if self.r.chance(0.5) {
             // make sure the children inherit at least one word they can consume
             let w = self.r.range(100, 200);
@@ -1037,7 +1045,7 @@ pub fn random_case(r: &mut Rng, focus: Focus) -> VmCase {
         }
     }
     let sols = case.solutions.clone();
-    let len = match r.below(4) {
+    let len = match if tiny() { 0 } else { r.below(4) } {
         0 => 3 + r.below(8),
         1 | 2 => 10 + r.below(40),
         _ => 50 + r.below(250),
